@@ -188,6 +188,16 @@ class Renderer:
             local.append((suf, off))
             lab = self.label_case(n[i])
             self.out.append(len(lab)); self.out += lab
+        # the terminating root is a name as well: a sender may replace the zero octet by a pointer to the zero octet that
+        # ends an earlier name (pointless, two octets instead of one, but a legal backward pointer to a prior name)
+        ent = self.names.get(())
+        if ent is not None and compressible and ent[0] <= 0x3FFF and ent[1] + 1 <= self.lay.max_hops and self.rnd(self.lay.compress * 0.15):
+            self.out += (0xC000 | ent[0]).to_bytes(2, 'big')
+            for s, off in local:
+                if off <= 0x3FFF: self.names[s] = (off, ent[1] + 1)
+            return
+        if len(self.out) <= 0x3FFF and () not in self.names:
+            self.names[()] = (len(self.out), 0)
         self.out.append(0)
         for s, off in local:
             if off <= 0x3FFF:
